@@ -433,7 +433,7 @@ func (c *Check) triviaJobs(entry, ver string, every int, rich bool, fuel int64, 
 	var keys []string
 	for _, s := range snips {
 		p := pr[s.ID]
-		if p == nil || p.NErr != 0 || s.Class == "pair" || s.Class == "double" || s.Class == "triple" {
+		if p == nil || p.NErr != 0 || s.Class == "pair" || s.Class == "double" || s.Class == "triple" || s.Class == "dirty" {
 			continue
 		}
 		for _, g := range triviaGaps(s.Src, p, ids) {
@@ -538,7 +538,7 @@ func (c *Check) lexemeJobs(entry, ver string, every int, fuel int64) ([]JobNeed,
 	var keys []string
 	for _, s := range snips {
 		p := pr[s.ID]
-		if p == nil || p.NErr != 0 || s.Class == "pair" || s.Class == "double" || s.Class == "triple" {
+		if p == nil || p.NErr != 0 || s.Class == "pair" || s.Class == "double" || s.Class == "triple" || s.Class == "dirty" {
 			continue
 		}
 		prev := 0
